@@ -28,8 +28,8 @@ Definition search_v (v : variant) (fuel : nat) (tol : spec_float) (xs : list (ke
 (* hypotheses of search_post, as a boolean: finite coordinates and bounds,
    non-negative weights, every point inside [mn, mx] *)
 Definition pre (xs : list (keyed spec_float)) (mn mx : spec_float) : bool :=
-  is_finite mn && is_finite mx
-  && forallb (fun q => is_finite (fst q) && (0 <=? snd q) && negb (flt (fst q) mn) && negb (flt mx (fst q))) (awl xs).
+  f32_fin mn && f32_fin mx
+  && forallb (fun q => f32_fin (fst q) && (0 <=? snd q) && negb (flt (fst q) mn) && negb (flt mx (fst q))) (awl xs).
 
 Definition refuted (v : variant) : Prop :=
   exists fuel tol xs mn mx sr, pre xs mn mx = true /\ search_v v fuel tol xs mn mx = Ok sr /\ ~ sides_balanced tol xs sr.
